@@ -289,7 +289,7 @@ PROPS["C20"] = {
 }
 
 PROPS["C18"] = {
-    "components": [CircuitSeq("C18", None, 150, 4000, suite="gowrap")],
+    "components": [CircuitSeq("C18", None, 150, 4000, suite="gowrap", crash_is_violation=True)],   # a harness death = a panic nobody surfaced to Go's caller, or Go blocked for good
     "generated": ["chanfacts"],   # gowrapper.go's concurrency structure as a ChanLang term, checked in Props/C18Prog.lean
     "rule": "gowrap (K4): Circuit.Go scenarios = outcome (nil / error / panic incl. error-valued and typed-nil panic values) x context end (never / before the call / while the function is parked / after it finished / simultaneously) x cancel vs execution timeout x GoLostErrors on/off x run function vs fallback x nil vs real circuit x function finishing or never returning; real goroutines under the real Go scheduler, order forced by channels; "
             "observed: Go's result or re-panicked value (identity), GoLostErrors reports, promptness (2 s bound while the function is parked), helper goroutines (stack dump) after the function returned; each observation must be a final state the Lean model allows; non-trivial = the context ends before/while/racing the function; distinct by FNV hash. "
